@@ -124,7 +124,7 @@ def r2_tail_size(cx):
     F = cx.F
     limit = ref.REF["sizes"]["SizedOffset.size_mask"]
     sites = []
-    for f in F.fns:
+    for f in F.live_fns:
         if "blocks" not in f or not re.match(r"(<)?creator::", f["name"].replace("<", "", 1) if f["name"].startswith("<") else f["name"]):
             if not ("creator::" in f["name"]):
                 continue
@@ -447,7 +447,7 @@ def _loop_exit_dominates(b, inner, later):
 def r7_array_length_recorded(cx):
     F = cx.F
     n = 0
-    for f in F.fns:
+    for f in F.live_fns:
         if "blocks" not in f:
             continue
         for i, blk in enumerate(f["blocks"]):
@@ -504,7 +504,31 @@ def r10_reader_offsets(cx):
         adds = [(i, s) for i, blk in enumerate(b.blocks) if not blk.get("cleanup") for s in blk["s"] if s["k"] == "assign" and s["rv"]["k"] == "bin" and s["rv"]["op"] in ("Add", "AddWithOverflow")]
         inc = [(i, s) for i, s in adds if ("field", "size") in b.origins(s["rv"]["b"]) and _in_loop(b, i)]
         o = b.origins(pn[0][1]["args"][0])
-        ok = len(inc) == 1 and ("param", 1) in o and b.dominates(pn[0][0], inc[0][0])
+        ok = len(inc) == 1 and ("param", 1) in o
+        if ok:
+            # the offset given to Property::new is the accumulator as it was BEFORE this definition's size is added:
+            # it is read (directly as the argument, or copied into a temporary) before the accumulator is written
+            acc = op_local(inc[0][1]["rv"]["a"])
+            writes = [(i, j) for i, blk in enumerate(b.blocks) if _in_loop(b, i) and not blk.get("cleanup") for j, st in enumerate(blk["s"])
+                      if st["k"] == "assign" and st["lhs"]["l"] == acc and not st["lhs"].get("p")]
+            pos = None
+            l = op_local(pn[0][1]["args"][0])
+            hops = 0
+            while l is not None and hops < 6:
+                if l == acc:
+                    pos = pos or (pn[0][0], 10 ** 6)
+                    break
+                ds = [d for d in b.defs().get(l, []) if d[0] == "stmt"]
+                if len(ds) != 1 or ds[0][3]["rv"]["k"] != "use":
+                    break
+                pos = (ds[0][1], ds[0][2])
+                l = op_local(ds[0][3]["rv"]["op"])
+                hops += 1
+            else:
+                pos = None
+            if l != acc:
+                pos = None
+            ok = acc is not None and len(writes) == 1 and pos is not None and b.dominates(pos[0], writes[0][0]) and (pos[0] != writes[0][0] or pos[1] < writes[0][1])
         # forward iteration over the definitions
         ok = ok and bool(b.calls(r"IntoIterator>::into_iter$")) and not b.calls(r"::rev$|::skip$|::step_by$")
     cx.ob("R10", "R10/Properties.new", ok, f, "reader Properties::new gives each definition the running offset (initial offset + sizes of the previous definitions), iterating forward")
